@@ -406,6 +406,7 @@ func (c *Client) recv(keepaliveQuit chan<- struct{}) {
 			err = c.Send(answer)
 			if err != nil {
 				c.ErrorHandler(err)
+				c.disconnected(c.Session.SMState)
 				return
 			}
 		case stanza.StreamClosePacket:
